@@ -12,6 +12,13 @@ LEVEL = {
             "not derived in Lean (Richardson-ratio test on the implementation, labelled a test). Model tied to hop_to_it of all four hopping "
             "classes, to advance_position/velocity of SH and MD, and to whole runs", "7 C01", NOTE,
             "Lean 4 theorems (ring/field identities, induction over steps) + correspondence on boundary-directed hops"),
+    "C02": ("proof", "Lean theorems (Mathlib matrices over C, via a proved ring-hom bridge from the model) for every N and dt: the midpoint generator "
+            "is Hermitian; the code's step matrix is C diag(e^{-i lambda dt}) C^H and is unitary when C is (eigh's contract, monitored); U rho U^H "
+            "preserves Hermiticity, unit trace, positive semi-definiteness (hence populations in [0,1]) and purity; by induction the state is valid "
+            "after ANY list of exponential steps. linear-rk4: general RK4 invariance theorems (invariant subspaces, annihilated functionals) "
+            "instantiated on the model's interaction-picture run: trace and Hermiticity preserved exactly for any sub-step count. PARTIAL: "
+            "positivity/purity under RK4 hold only to its truncation error (tested, 1e-6). Hops do not touch rho; collapse gives the pure active state", "7 C02", NOTE,
+            "Lean 4 theorems (Matrix/unitary/PosSemidef, induction over steps, RK4 invariance) + correspondence with captured eigh"),
     "C03": ("proof", "Lean theorems for every N: flux identity for rho'=-i[W,rho], antisymmetry, zero self-flux, g=max(0,b dt/rho_kk)>=0, sum rule, "
             "complete specification of the cumulative-partition scan (hop to n iff zeta in n's slot; zero-width slots never chosen), Poisson total "
             "1-exp(-G) and unchanged branching ratios. Tied to surface_hopping/hopper with thresholds exactly on and one ulp either side of "
